@@ -1054,3 +1054,11 @@ M("C13.content_type_arms_crossed", ["C13", "C12"], "emitter/otlp/src/client/http
   '        Encoding::Proto => "application/x-protobuf",\n        Encoding::Json => "application/json",', '        Encoding::Proto => "application/json",\n        Encoding::Json => "application/x-protobuf",', "encoding-arms")
 M("C07.flush_watchers_pushed_to_take_list", ["C07"], "batcher/src/lib.rs",
   "    fn push_on_flush(&mut self, watcher: Watcher) {\n        self.on_flush.push(watcher);", "    fn push_on_flush(&mut self, watcher: Watcher) {\n        self.on_take.push(watcher);", "C07.R3:watcher-lists")
+
+# ---- round 7 (deletion sweeps) --------------------------------------------------------------------------------------------------------
+M("C08.send_or_wait_expired_edge_falls_through", ["C08", "C09"], "batcher/src/lib.rs",
+  "                    if elapsed >= timeout {\n                        return Err(err);\n                    }", "                    if elapsed >= timeout {\n                    }", "R3:send_or_wait-outcomes")
+M("C11.listing_never_stored", ["C11"], "emitter/file/src/lib.rs",
+  "        self.file_set = file_set;\n\n        Ok(())", "        Ok(())", "C11.R3:listing-total")
+M("C11.event_bytes_not_counted", ["C11"], "emitter/file/src/lib.rs",
+  "        self.file_size_bytes += event_buf.len();\n", "", "C11.R1c:size-accounting")
